@@ -656,6 +656,9 @@ func (o *Orch) writeEvidence(unlisted, knownSeen int) {
 		"broken":              o.Broken,
 		"shards":              o.Spec.Shards,
 	}
+	if o.Counters["distinct_cap_reached"] > 0 {
+		cov["distinct_note"] = fmt.Sprintf("distinct_nontrivial is a lower bound: each shard remembers at most %d identities (%d further new identities were not remembered)", distinctCap, o.Counters["distinct_cap_reached"])
+	}
 	if len(o.Samples) == 0 {
 		cov["samples"] = []interface{}{"(no sample recorded)"}
 	}
